@@ -1158,3 +1158,14 @@ package keyvalue
 //@   ensures "gate" [C04 C05] implies(!VP(oldname) || !VP(newname), isLinkError(err) && errIs(err, hackpadfs.ErrInvalid) && oldOf(err) == oldname && newOf(err) == newname && memSame(fs) && world() == old(world()))
 //@   ensures "inv" fsMem(fs)
 //@   nopanic
+
+// NewFS: the root directory is created if the store does not hold one.
+//@ func NewFS(store Store) (fs *FS, err error)
+//@   props C01 C03
+//@   requires store != nil && storeUnlocked(store) && (isType(store, *mem.store) || !implements(store, TransactionStore))
+//@   modifies world(), mapOf(memStoreOf(store).records)
+//@   ensures "wraps" fs != nil && fresh(fs) && fs.store != nil && fsStore(fs) == store
+//@   ensures "root" [C03] implies(isMem(fs) && err == nil, kvHas(fs, ".") && implies(!old(in(".", dom(memStoreOf(store).records))), memIsDir(fs, ".")) && memSameExcept(fs, "."))
+//@   ensures "tree" [C03] implies(isMem(fs) && err == nil && forall(k, string, !old(in(k, dom(memStoreOf(store).records)))), treeInv(fs))
+//@   ensures "inv" fsInv(fs)
+//@   nopanic
